@@ -172,6 +172,21 @@ def run_shard(spec):
             else:
                 runner.count(res, 'open_shapes_rejected')
                 res['nontrivial'].append(runner.case_id('shape', src))
+        # the library routines are functions too: no operand (empty, one element, long; every storage kind) may make one of
+        # them run on into the routine that follows it
+        from .c03 import LIBRARY_PROGRAMS
+        for tag, src, argsets in LIBRARY_PROGRAMS:
+            for a in argsets:
+                for word in (2, 3):
+                    for unchecked in (False, True):
+                        res['evaluations'] += 1
+                        run = diff.compile_and_run(src, a, word=word, stack=diff.GENEROUS_STACK, unchecked=unchecked, max_steps=MAX_STEPS)
+                        case = diff.case_dict(src, a, word, diff.GENEROUS_STACK, unchecked, gen='library:' + tag)
+                        fall = [r for r in run.outcome.reports if r[1] == 'fall'] if run.kind == 'ok' else []
+                        if run.kind != 'ok' or fall:
+                            runner.fail(res, 'M-FALL', f'library {tag}: {fall[0][2] if fall else run.kind + ": " + str(run.detail)}', case)
+                        else:
+                            runner.count(res, 'library_runs_clean')
         res['exhaustive'] = True
         return res
     if spec['kind'] == 'grid':
